@@ -39,7 +39,7 @@ class Model:
         self.csizes = sizes     # bits per colour (semantic order) for packed models
 
     def tag(self):
-        return "%s_%s%s" % (self.kind, self.layout.replace("_layout_t", ""), ("o%d" % self.off) if self.kind == "bits" else "")
+        return "%s_%s%s" % (self.kind, self.layout.replace("_layout_t", "").replace("<", "").replace(">", ""), ("o%d" % self.off) if self.kind == "bits" else "")
 
     def phys_sizes(self):
         return [self.csizes[self.colors.index(c)] for c in self.mem]
@@ -97,7 +97,8 @@ def families(tier):
     fam = []
     # byte-channel family
     for space, layouts in (("rgb_t", ["rgb_layout_t", "bgr_layout_t"]), ("rgba_t", ["rgba_layout_t", "bgra_layout_t", "argb_layout_t", "abgr_layout_t"]),
-                           ("cmyk_t", ["cmyk_layout_t"]), ("gray_t", ["gray_layout_t"])):
+                           ("cmyk_t", ["cmyk_layout_t"]), ("gray_t", ["gray_layout_t"]),
+                           ("devicen_t<2>::type", ["devicen_layout_t<2>"]), ("devicen_t<5>::type", ["devicen_layout_t<5>"])):
         ms = [Model("val", l) for l in layouts] + [Model("planar", layouts[0])]
         if space == "gray_t":
             ms = [Model("val", layouts[0])]
@@ -179,9 +180,11 @@ def run(rep):
                     nm = "w_ad_%d" % n
                     lines.append("iptr %s(%s){ %s return (iptr)&%s; }" % (nm, ", ".join(mp), " ".join(msetup), expr))
                     obl.append((nm, "address", m, (what, c), fname))
-            if m.kind == "val":
+            if m.kind in ("val", "planar"):
                 for k in range(m.n):
                     for what, expr in (("at_c", "at_c<%d>(%s)" % (k, mexpr)), ("operator[]", "%s[%d]" % (mexpr, k)), ("dynamic_at_c", "dynamic_at_c(%s, %d)" % (mexpr, k))):
+                        if m.kind == "planar" and what == "dynamic_at_c":
+                            continue        # does not compile for reference elements (pointer to reference); operator[] is the run-time accessor
                         n += 1
                         nm = "w_ad_%d" % n
                         lines.append("iptr %s(%s){ %s return (iptr)&%s; }" % (nm, ", ".join(mp), " ".join(msetup), expr))
@@ -226,8 +229,8 @@ def run(rep):
             obl.append(("w_sgen_%d" % n, "static_generate", m, None, fname))
         # planar reference built from a mutable pixel, and reference-of-channels pixels: cells by colour
         for m in vals:
-            if m.n < 3:
-                continue
+            if m.n < 3 or m.n > 4:
+                continue            # the 5-element colour base has no constructor from a mutable colour base (not part of the property)
             for ci, c in enumerate(m.colors):
                 n += 1
                 lines.append("iptr w_ad_%d(%s& p0){ planar_pixel_reference<std::uint8_t&, %s> r(p0); return (iptr)&semantic_at_c<%d>(r); }" % (n, m.cxx_type(), m.space, ci))
